@@ -215,6 +215,8 @@ ToJ(v) ==
                           IN IF \E i \in 1..Len(js) : js[i][1] = "fail" \/ v[2][i][1][1] # "text" THEN JFail
                              ELSE <<"jobj", [i \in 1..Len(js) |-> <<v[2][i][1][2], js[i]>>]>>
     [] v[1] = "null"   -> <<"jnull">>
+    [] v[1] = "rep"    -> LET j == ToJ(v[3]) IN IF j[1] = "fail" /\ v[2] > 0 THEN JFail ELSE <<"jrep", v[2], j>>
+    [] v[1] = "mrep"   -> LET j == ToJ(v[3]) IN IF j[1] = "fail" /\ v[2] > 0 THEN JFail ELSE <<"jorep", v[2], j>>
     [] OTHER -> JFail
 
 (* JSON -> the generic value its CBOR reads back as.                       *)
@@ -228,6 +230,8 @@ Shape(j) ==
     [] j[1] = "jstr"  -> <<"text", j[2]>>
     [] j[1] = "jarr"  -> <<"array", [i \in 1..Len(j[2]) |-> Shape(j[2][i])]>>
     [] j[1] = "jobj"  -> <<"map", [i \in 1..Len(j[2]) |-> << <<"text", j[2][i][1]>>, Shape(j[2][i][2]) >>]>>
+    [] j[1] = "jrep"  -> <<"rep", j[2], Shape(j[3])>>
+    [] j[1] = "jorep" -> <<"mrep", j[2], Shape(j[3])>>
 
 (* The schema-less read-back of a stored value: non-negative I64 -> U64,   *)
 (* F32 -> F64 (exact widening: same atom), Vector -> array of bit patterns,*)
